@@ -1,6 +1,6 @@
 """Extraction of byte-at-a-time parser FSMs from MIR by exhaustive evaluation (P6 applied to a loop body),
 and language inclusion checks against reference automata."""
-import json
+import json, re
 from .core import *
 
 
@@ -89,6 +89,51 @@ class ByteFsm:
                 if pl['l'] == 1 and pl['p'] and pl['p'][0] == 'deref' and fl == [fld] and len(pl['p']) == 2:
                     return json.dumps(pl, sort_keys=True)
         raise AnalysisError('%s: state field %s not found' % (f.id, fld))
+
+    def frame_problems(self, allowed_calls=r'\[T\]>::len$|IntoIterator|fmt::|log::|__private_api|Arguments'):
+        """The code around the loop must not take part in parsing: before the loop the cursor is set to the constant
+        0 and neither the state nor the data is looked at (no branch, no store through the state pointer); after the
+        loop nothing is stored into the state.  Returns a list of problems (empty = the function is just the fold)."""
+        f = self.f
+        H = self.H
+        loop = {b for b in f.reachable(H) if H in f.reachable(b)}
+        pre = f.reachable(0, removed_blocks=[H]) if H != 0 else set()
+        post = f.reachable(H) - loop
+        out = []
+
+        def state_store(st):
+            pl = st['lhs']
+            return pl['l'] == 1 and pl['p'] and pl['p'][0] == 'deref'
+        for b in sorted(pre):
+            blk = f.blocks[b]
+            if blk['cleanup']:
+                continue
+            if blk['term']['k'] == 'switch':
+                d = f.switch_edges(b)[0]
+                dep = [x for x in walk(d) if isinstance(x, tuple) and x and ((x[0] == 'entry' and Fn.root_of(x[1]) in (('deref', ('param', 1)), ('deref', ('param', self.data)))) or x[0] in ('phi', 'cyc', 'modby'))]
+                if dep:
+                    out.append('branch on the parser state / input before the loop at %s' % f.loc(b))
+            if blk['term']['k'] == 'call':
+                c = (blk['term']['resolved'] or [blk['term']['callee']])[0]
+                if not re.search(allowed_calls, c) and not re.search(allowed_calls, blk['term']['callee']):
+                    out.append('call to %s before the loop at %s' % (c.split('::')[-1], f.loc(b)))
+            for st in blk['stmts']:
+                if state_store(st):
+                    out.append('parser state written before the loop at %s' % f.loc(b))
+                if not st['lhs']['p'] and st['lhs']['l'] == self.i:
+                    rv = st['rv']
+                    if not (rv['k'] == 'use' and rv['a']['k'] == 'const' and rv['a'].get('val') == 0):
+                        out.append('cursor initialised with something other than 0 at %s' % f.loc(b))
+        if not any((not st['lhs']['p'] and st['lhs']['l'] == self.i) for b in pre for st in f.blocks[b]['stmts']):
+            out.append('cursor is not initialised before the loop')
+        for b in sorted(post):
+            blk = f.blocks[b]
+            if blk['cleanup']:
+                continue
+            for st in blk['stmts']:
+                if state_store(st):
+                    out.append('parser state written after the loop at %s' % f.loc(b))
+        return out
 
     def step_once(self, state, byte):
         """One pass through the loop body. -> (state', consumed(0/1/-), kind) kind in 'loop','return','stuck'"""
